@@ -233,7 +233,8 @@ class Scen:
             self.decl.append('let %s = vxlan::session(%s:%d, %s:%d, sessionid: %d%s);' % (nm, ip(a), sp, ip(b), dp, r.below(2 ** 24), ', raw: true' if traw else ''))
             outer = dict(src=a, dst=b, sport=sp, dport=dp, proto=17, id=0, ttl=64, off=0, evil=False, df=False, mf=False, l4=('udp', False), eth='ip')
         else:
-            extra = ', 0x6558' if kind == 'gre' else ''
+            # the GRE protocol type is a label for the payload: whatever it says, the OUTER packet is framed like any other
+            extra = ', %s' % r.choice(['0x6558', '0x6558', '0x0800', '0x86dd', '0x88be', '0', '0xffff', str(r.below(65536))]) if kind == 'gre' else ''
             self.decl.append('let %s = %s::session(%s, %s%s%s);' % (nm, kind, ip(a), ip(b), extra, ', raw: true' if traw else ''))
             outer = dict(src=a, dst=b, proto=47, id=0, ttl=64, off=0, evil=False, df=False, mf=False, l4=None, eth='ip')
         def wrap(stmt, exps):
